@@ -191,7 +191,7 @@ ADAPTIVE_PROBE = [
 
 def exact_leg(ctx, batch, pending):
     rng = ctx.rng
-    n_scipy, n_adapt = ctx.budget(150, 3000), ctx.budget(40, 600)
+    n_scipy, n_adapt = ctx.budget(120, 3000), ctx.budget(30, 600)
     for k in range(n_scipy + n_adapt):
         solver = "scipy" if k < n_scipy else rng.choice(["euler", "runge-kutta"])
         case = gen_exact_case(rng, ctx.hist, solver)
@@ -241,7 +241,7 @@ def monitors(ctx, case, real):
 def run(ctx):
     from harness.common.lean import LeanBatch
     rng = ctx.rng
-    plan = {"numpy": ctx.budget(600, 18000), "numba-S": ctx.budget(90, 3000), "numba-J": ctx.budget(12, 320)}
+    plan = {"numpy": ctx.budget(500, 18000), "numba-S": ctx.budget(60, 3000), "numba-J": ctx.budget(8, 320)}
     first = {m: [[gen_case(rng, ctx.hist, m, 100 if m != "numba-J" else 40)] for _ in range(n)] for m, n in plan.items()}
     res1 = ctrl.exec_groups(ctx, first)
     second = {m: [] for m in plan}
